@@ -2,7 +2,7 @@
 
 from __future__ import annotations
 
-from asyncio import Future, ensure_future, gather
+from asyncio import CancelledError, Future, ensure_future, gather
 from typing import TYPE_CHECKING, Any
 
 if TYPE_CHECKING:
@@ -25,6 +25,13 @@ async def gather_with_cancel(*awaitables: Awaitable[Any]) -> list[Any]:
     futures: list[Future[Any]] = [ensure_future(aw) for aw in awaitables]
     try:
         return await gather(*futures)
+    except CancelledError:
+        # When it is cancelled, gather() cancels all pending futures, but it finishes
+        # as soon as the first of them has unwound. Wait for the others as well, so
+        # that no cancelled work (such as closing an iterator) outlives the caller.
+        # They must not be cancelled a second time, which would interrupt that work.
+        await gather(*futures, return_exceptions=True)
+        raise
     except Exception:
         for future in futures:
             if not future.done():
